@@ -6,31 +6,31 @@ ALL = ["C%02d" % i for i in range(1, 20)]
 
 CHECKS = {
  "C01": dict(
-   text="TLC enumerates configurations x stored subsets x storage orders x queries x widths x depths of CheckCases.tla, checks on the model that the engine design equals RefSem when limits are not binding (and that RefSem agrees with an independent stratified fixpoint), and every enumerated case is replayed on the real engine (sqlite, real parser, real SQL) undisturbed and under seeded delay schedules; the answer must equal RefSem whenever the spec says the limits are not binding.",
-   note="Bounded: six configuration families with universes of 7-10 tuples (all subsets in the thorough tier, a seeded sample in the quick tier), depths 1..8, widths {1,2,3,100}; schedules are perturbed, not enumerated; sqlite only.",
+   text="TLC enumerates configurations x stored subsets x storage orders x queries x widths x depths of CheckCases.tla, checks on the model that the engine design equals RefSem when limits are not binding (and that RefSem agrees with an independent stratified fixpoint), and every enumerated case is replayed on the real engine (sqlite, real parser, real SQL) undisturbed and under seeded delay schedules; the answer must equal RefSem whenever the spec says the limits are not binding. Traverse.tla specifies the storage layer's paging loop below the engine (rows up to the first found one, each once, in order); nodes with 0..2001 subject sets are replayed on the real traverser and engine.",
+   note="Bounded: seven configuration families (one built around the check-wide visited set against storage order) with universes of 7-10 tuples (all subsets in the thorough tier, a seeded sample in the quick tier), depths 1..8, widths {1,2,3,100}; schedules are perturbed, not enumerated; sqlite only.",
    technique="TLA+ model checking (TLC) + spec-generated cases replayed on the real engine", ref="4/C01"),
  "C02": dict(
-   text="On the model (TLC over CheckCases.tla): the three-valued engine never answers allowed where RefSem denies, at any depth or width. On the real engine: every enumerated case at every depth 1..Dmax and width, plus out-of-range request depths and a second server with a lower global depth; allowed must imply RefSem allowed, and (r, g) must answer as (eff(r, g)) does. The recorded fail-open finding (unknown collapses below a negation) is matched by exact agreement with the as-is model.",
+   text="On the model (TLC over CheckCases.tla): the three-valued engine never answers allowed where RefSem denies, at any depth or width. On the real engine: every enumerated case at every depth 1..Dmax and width, plus out-of-range request depths and a second server with a lower global depth; allowed must imply RefSem allowed, and (r, g) must answer as (eff(r, g)) does; the same queries sent as one batch through the engine, gRPC and REST batch check at in-range and out-of-range request depths must answer entry by entry like the single check. The recorded fail-open finding (unknown collapses below a negation) is matched by exact agreement with the as-is model.",
    note="Same bounds as C01. Attribution of the known finding needs the as-is engine model to be exact; model drift is counted in the evidence.",
    technique="TLA+ model checking (TLC) + spec-generated cases replayed on the real engine", ref="4/C02"),
  "C03": dict(
-   text="Spec-generated cases are replayed with the k-th storage call of the check failing, for every k in 1..N+1 (N counted on the fault-free run), transiently, persistently and with context.Canceled, through the engine and through engine/gRPC/REST batch check; the result must be an error or the fault-free answer, never allowed when the fault-free answer is denied, never allowed together with an error.",
-   note="Faults are injected at the Manager/Traverser interface (EngineDependencies), not inside the SQL driver; a seeded sample of stored subsets per family in both tiers.",
+   text="Spec-generated cases are replayed with the k-th storage call of the check failing, for every k in 1..N+1 (N counted on the fault-free run), transiently, persistently and with context.Canceled, through the engine and through engine/gRPC/REST batch check; the result must be an error or the fault-free answer, never allowed when the fault-free answer is denied, never allowed together with an error. Traverse.tla's FaultClosed (a failing page statement gives an error or the complete result, never a prefix) is checked on the model, and on nodes with 1001..3001 subject sets every SQL statement of the real check is made to fail once.",
+   note="Faults are injected at the Manager/Traverser interface (EngineDependencies), and inside the SQL driver for the wide-node cases; a seeded sample of stored subsets per family in both tiers.",
    technique="TLC-generated cases + exhaustive fault-position enumeration on the real engine", ref="4/C03"),
  "C15": dict(
-   text="Checkgroup.tla models the channel protocol of the concurrent checkgroup statement by statement; TLC checks all interleavings for at-most-one-in-flight, result soundness, and under fairness plus eventual context release that every goroutine exits. On the real engine, spec-generated cases are run with the context cancelled before the call and at the gate before every storage call, and with every storage call failing: the call must return, the storage calls must stay within the spec's exhaustive-evaluation bound, and after release no goroutine of the check may remain (goroutine dumps).",
+   text="Checkgroup.tla models the channel protocol of the concurrent checkgroup statement by statement; TLC checks all interleavings for at-most-one-in-flight, result soundness, and under fairness plus eventual context release that every goroutine exits. On the real engine, spec-generated cases are run with the context cancelled before the call and at the gate before every storage call, and with every storage call failing: the call must return, the storage calls must stay within the spec's exhaustive-evaluation bound, and after release no goroutine of the check may remain (goroutine dumps). The same cancellation is sent through the REST, gRPC and gRPC batch handlers with storage that returns at once when its context is done and after 4 s otherwise: the request must return within 2 s. Checkgroup event logs recorded through hook H2 are validated by TraceCheckgroup.tla.",
    note="Checkgroup.tla: up to 4 adds, one caller. 'Returns' uses a 10 s grace period; goroutine accounting polls dumps for up to 5 s.",
-   technique="TLA+ model checking of the checkgroup protocol (safety + liveness) + cancellation/fault-position enumeration on the real engine", ref="4/C15"),
+   technique="TLA+ model checking of the checkgroup protocol (safety + liveness) + cancellation/fault-position enumeration on the real engine and API handlers + trace validation of checkgroup event logs", ref="4/C15"),
  "C04": dict(
-   text="Store.tla specifies the store as a per-network multiset with one action per API operation; TLC checks its action properties exhaustively on a small universe (create adds one copy, delete-by-query removes all and only matches, transact is insert-then-delete all-or-nothing, errors change nothing, list = matching sub-bag) and generates API histories with the expected reply and full multiset after every step; the harness executes them alternately over REST and gRPC (adversarial concrete strings, pagination size 2) and the runner compares replies and stored multisets exactly.",
-   note="Histories of 30-40 operations over a universe of 72 tuples incl. unknown namespaces and missing subjects; sqlite only; check replies use configuration-free namespaces.",
-   technique="TLA+ model checking (TLC) + TLC-generated histories replayed over REST/gRPC", ref="4/C04"),
+   text="Store.tla specifies the store as a per-network multiset with one action per API operation; TLC checks its action properties exhaustively on a small universe (create adds one copy, delete-by-query removes all and only matches, transact is insert-then-delete all-or-nothing, errors change nothing, list = matching sub-bag) and generates API histories with the expected reply and full multiset after every step; the harness executes them alternately over REST and gRPC (adversarial concrete strings, pagination size 2) and the runner compares replies and stored multisets exactly. Keto.tla composes the store with an in-flight check at the grain of its storage reads: TLC checks exhaustively what a check that overlaps writes may answer (exact when quiet, one-sided under insert-only / delete-only overlap) and emits every write schedule; each is replayed on the real engine behind a reader/writer gate and the recorded reads, writes and answers are validated by TraceKeto.tla.",
+   note="Histories of 30-40 operations over a universe of 126 writable tuples (three configured namespaces, one with a rewrite) incl. unknown namespaces and missing subjects; sqlite only; check replies use configuration-free namespaces.",
+   technique="TLA+ model checking (TLC) + TLC-generated histories replayed over REST/gRPC + trace validation (TraceKeto.tla) of checks overlapping writes", ref="4/C04"),
  "C06": dict(
-   text="Store.tla's Isolation action property is checked exhaustively; the generated histories run over two networks on one database connection (network id from the request context), with a third network seeded by raw SQL with rows carrying network A's UUIDs, so that any statement missing its nid predicate changes an observable; after every step every network is listed and counted and must equal the model.",
+   text="Store.tla's Isolation action property is checked exhaustively; the generated histories run over two networks on one database connection (network id from the request context), with a third network seeded by raw SQL with rows carrying network A's UUIDs, so that any statement missing its nid predicate changes an observable; after every step every network is listed and counted and must equal the model. One configured namespace declares a relation through a computed-subject-set rewrite, so that the generated checks also exercise the rewrite traversal of the storage layer in every network.",
    note="Networks are selected through a context-driven Contextualizer on one registry (overlay-added test option); sqlite only.",
    technique="TLA+ model checking (TLC) + TLC-generated histories replayed on two networks sharing a database", ref="4/C06"),
  "C17": dict(
-   text="Store.tla's ReadOnlyUnchanged action property is checked exhaustively; on the real server a byte-level dump of both tables is compared around every read step of generated histories and around 19 read/syntax requests (never-seen names over every check transport, expand, list, namespaces, syntax check, and write methods sent to the read and syntax routers) after every step.",
+   text="Store.tla's ReadOnlyUnchanged action property is checked exhaustively; on the real server a byte-level dump of both tables is compared around every read step of generated histories and around 25 read/syntax requests (never-seen names over every check transport, batch checks of 5, 6 and 10 valid never-seen relationships, expand, list, namespaces, syntax check, and write methods sent to the read and syntax routers) after every step.",
    note="sqlite only; the dump covers keto_relation_tuples and keto_uuid_mappings.",
    technique="TLA+ model checking (TLC) + dump comparison around spec-generated read requests", ref="4/C17"),
  "C07": dict(
@@ -78,7 +78,7 @@ CHECKS = {
    note="Assumes fsnotify reports an atomic rename; final state awaited up to 15 s; two files, up to 8 steps per sequence.",
    technique="TLA+ model checking (TLC) + TLC trace validation of recorded watcher executions", ref="4/C19"),
  "C14": dict(
-   text="LazyInit.tla models the registry's create-on-first-use getters as access events with happens-before from the mutex only; TLC checks that the synchronised getter is race free and returns one instance to every caller, and that the unsynchronised one is not (a regression test of the model). Request-private state is part of Checkgroup.tla / KetoCheck.tla (one visited set and one result slot per request). On the real code, rounds of requests (check, batch check, expand, list over REST and gRPC) are released by a barrier against a registry that has served nothing yet, in a binary built with -race: every reply must equal the reply of the same request run alone, the multiset of visited sets recorded through hook H1 must equal that of the alone runs, and any race report is a violation.",
+   text="LazyInit.tla models the registry's create-on-first-use getters as access events with happens-before from the mutex only; TLC checks that the synchronised getter is race free and returns one instance to every caller, and that the unsynchronised one is not (a regression test of the model). Request-private state is part of Checkgroup.tla / KetoCheck.tla (one visited set and one result slot per request). On the real code, rounds of requests (check, batch check, expand, list over REST and gRPC) are released by a barrier against a registry that has served nothing yet, in a binary built with -race: every reply must equal the reply of the same request run alone, the multiset of visited sets recorded through hook H1 must equal that of the alone runs, and any race report is a violation. Every second round is followed by a round in which a third of the requests are writes (race detector and crashes only); every third round has half of its clients give up part-way through their request, next to and followed by requests that run to completion, all compared with answers computed before any request was abandoned (on one, two and all processors, and again in a binary without the race detector).",
    note="Data-race freedom is observed with Go's race detector on the generated workload; it is not derived from the TLA+ model. 16-48 requests per round.",
    technique="TLA+ model checking (TLC) of the lazy-initialisation protocol + concurrent-vs-alone replay under the race detector", ref="4/C14"),
 }
